@@ -280,6 +280,41 @@ def check_force(ctx, rng):
         sc.close()
 
 
+def check_single_file(ctx, rng):
+    """a single-file target (its only entry is the root entry): converge, relink to the configured type, second checkout is a no-op"""
+    sc = Scene(ctx, rng)
+    try:
+        v1 = b"single-file-content-%d" % rng.randrange(1000)
+        v2 = v1 if rng.random() < 0.6 else v1 + b"-v2"
+        for c in (v1, v2):
+            stores.put_raw(sc.odb.path, md5hex(c), c)
+        existing, configured = rng.choice(LINKS), rng.choice(LINKS)
+        relink = rng.random() < 0.7
+        r0 = sc.checkout(md5hex(v1), [existing], force=True)
+        res = sc.checkout(md5hex(v2), [configured], force=True, relink=relink)
+        case = {"single_file": {"same_content": v1 == v2, "existing": existing, "configured": configured, "relink": relink,
+                                "local": sc.local, "state": sc.state is not None}}
+        ctx.case(case, nontrivial=existing != configured)
+        ctx.count("single_file:%s->%s relink=%s" % (existing, configured, relink))
+        p = sc.ws
+        ok = os.path.isfile(p) or os.path.islink(p)
+        data = open(p, "rb").read() if ok else None
+        ctx.oracle("ok" in r0 and "ok" in res and data == v2, case, {"why": "single-file checkout did not leave the target content", "first": r0, "second": res})
+        if ok and "ok" in res and (relink or v1 != v2):
+            cp = sc.cache_path(md5hex(v2))
+            if os.path.islink(p):
+                kind = "symlink" if os.path.realpath(p) == os.path.realpath(cp) else "symlink-elsewhere"
+            elif os.stat(p).st_nlink > 1 and os.stat(p).st_ino == os.stat(cp).st_ino:
+                kind = "hardlink"
+            else:
+                kind = "copy"
+            ctx.oracle(kind == configured, case, {"why": "a relinking checkout of a single file left another link type", "got": kind, "configured": configured})
+        res2 = sc.checkout(md5hex(v2), [configured], force=True, relink=False)
+        ctx.oracle(res2 == {"ok": False}, case, {"why": "a second checkout of a single file did not report 'nothing to do'", "second": res2})
+    finally:
+        sc.close()
+
+
 def relink_table(ctx):
     """exhaustive: _needs_relink over configured type lists x actual link kind x points-at-cache x cache meta known"""
     from dvc_data.hashfile.checkout import _needs_relink
@@ -318,17 +353,21 @@ def run(ctx):
     ctx.rule = (
         "exhaustive _needs_relink table; (prior, target) pairs over nested trees with duplicate contents and empty files, the 3x3 "
         "(existing link type, configured link type) matrix, relink on/off, both store classes, with/without state, user edits "
-        "between the checkouts; each followed by a second checkout. non-trivial = link type changes or the user edited the workspace"
+        "between the checkouts; single-file targets over the same link matrix; each followed by a second checkout. non-trivial = link type changes or the user edited the workspace"
     )
     ctx.assumptions = ["reflink is unavailable in the sandbox (copy is what runs)", "hard-linking an empty file creates a fresh empty file: for empty files only symbolic link versus regular file is compared"]
     relink_table(ctx)
     for _ in range(ctx.n(110, 1200)):
         check_force(ctx, ctx.rng)
+    for _ in range(ctx.n(40, 400)):
+        check_single_file(ctx, ctx.rng)
 
 
 def search(ctx):
     for _ in range(1000):
         check_force(ctx, ctx.rng)
+    for _ in range(300):
+        check_single_file(ctx, ctx.rng)
 
 
 def replay(ctx, payload):
